@@ -101,3 +101,25 @@ Print Assumptions C02_quote_match_used.
 Theorem C02_quote_stage_plain : forall sp t, (forall c, In c t -> qn c = c) -> (forall c, In c (map_text sp) -> qn c = c) -> find_quote sp t = find_on sp t.
 Proof. exact find_quote_plain. Qed.
 Print Assumptions C02_quote_stage_plain.
+
+(* fix D44 with the quote stage modelled: when the raw view has no exact occurrence of the target, an exact accepted-view occurrence on document
+   text is the place the edit is applied to, on the accepted-view map - whatever the quote stage or a later stage answered on the raw view (that
+   answer is consumed and dropped) *)
+Theorem C02_exact_accepted_match_beats_approximate : forall s t orc i, find_on (s_raw s) t = None -> find_on (clean_of s) t = Some i ->
+  fst (fst (fst (locate s t orc))) = Some (i, length t) /\ snd (fst (fst (locate s t orc))) = true
+  /\ snd (locate s t orc) = snd (approx (s_raw s) t orc).
+Proof. exact locate_clean_exact. Qed.
+Print Assumptions C02_exact_accepted_match_beats_approximate.
+
+(* ... and when neither view has an exact occurrence, a raw-view quote-stage answer is the one used, on the raw map, no recorded answer consumed *)
+Theorem C02_quote_match_raw_used : forall s t orc i, find_on (s_raw s) t = None -> find_on (clean_of s) t = None -> find_quote (s_raw s) t = Some i ->
+  fst (fst (fst (locate s t orc))) = Some (i, length t) /\ snd (fst (fst (locate s t orc))) = false /\ snd (locate s t orc) = orc.
+Proof. exact locate_quote_raw. Qed.
+Print Assumptions C02_quote_match_raw_used.
+
+(* the hypotheses of the quote-stage theorems are satisfiable: the text is one run holding a typographic-quoted letter, the target names it with
+   straight quotes - the exact stage finds nothing, the quote stage finds it at 0 *)
+Example C02_quote_stage_nonvacuous :
+  let sp := [ {| o_start := 0; o_end := 3; o_text := [8220; 97; 8221]%N; o_real := true; o_uid := 1; o_pid := Some 1; o_ins := None; o_del := None |} ] in
+  find_on sp [34; 97; 34]%N = None /\ find_quote sp [34; 97; 34]%N = Some 0.
+Proof. vm_compute. split; reflexivity. Qed.
